@@ -495,7 +495,78 @@ fn text_line(r: &mut Rng, w: usize) -> String {
     s
 }
 
+/// C09 with the HEIGHT changing in the middle of the input (the text is cut at arbitrary positions, biased
+/// to the moment a row has just been filled, and the height - only the height - changes between the
+/// pieces): text() must still be exactly the input lines (MCText.tla checks this on the specification for
+/// every cut position).  A width change in mid-line is not covered by any statement and is not done here.
+fn ep_c09_mid(s: &mut S, r: &mut Rng, maxc: usize, maxr: usize) {
+    s.episode("C09");
+    let w = r.range(1, maxc);
+    let slots = [s.new_vt(w, r.range(1, maxr), -1), s.new_vt(w, r.range(1, maxr), -1), s.new_vt(w, 1, -1)];
+    let nl = r.range(1, 10);
+    let lines: Vec<String> = (0..nl).map(|_| text_line(r, w)).collect();
+    let input: Vec<char> = lines.join("\r\n").chars().collect();
+    // cut points: after a row has just been filled (pending wrap), plus random ones
+    let mut cuts: Vec<usize> = Vec::new();
+    let mut col = 0usize;
+    for (i, c) in input.iter().enumerate() {
+        if *c == '\r' || *c == '\n' {
+            col = 0;
+        } else {
+            col += 1;
+            if col % w == 0 && r.chance(1, 2) {
+                cuts.push(i + 1);
+            }
+        }
+    }
+    for _ in 0..r.range(0, 3) {
+        cuts.push(r.range(0, input.len()));
+    }
+    cuts.sort();
+    cuts.dedup();
+    cuts.truncate(4);
+    for slot in slots {
+        let mut from = 0usize;
+        for &k in cuts.iter().chain(std::iter::once(&input.len())) {
+            let piece: String = input[from..k].iter().collect();
+            if !piece.is_empty() {
+                s.feed_str(slot, &piece, true);
+            }
+            from = k;
+            if k < input.len() && s.alive(slot) {
+                let (c0, r0) = s.vt(slot).size();
+                let nr = match r.n(4) {
+                    0 => c0,                        // the new height equals the width
+                    1 => r0 + 1,
+                    2 => (r0.max(2)) - 1,
+                    _ => r.range(1, maxr + 2),
+                };
+                if nr != r0 {
+                    s.resize(slot, c0, nr.max(1), true);
+                }
+            }
+        }
+        if !s.alive(slot) {
+            return;
+        }
+        s.text(slot);
+    }
+    let mut v = String::from("[");
+    for (i, l) in lines.iter().enumerate() {
+        if i > 0 {
+            v.push(',');
+        }
+        crate::obs::str_cps(&mut v, l);
+    }
+    v.push(']');
+    s.note("input_lines", &v);
+    s.rel("TextOK", &slots);
+}
+
 fn ep_c09(s: &mut S, r: &mut Rng, maxc: usize, maxr: usize) {
+    if r.chance(1, 3) {
+        return ep_c09_mid(s, r, maxc, maxr);
+    }
     s.episode("C09");
     let w1 = r.range(1, maxc);
     let w2 = r.range(1, maxc + 2);
@@ -1153,7 +1224,9 @@ fn ep_c19(s: &mut S, r: &mut Rng, maxc: usize, maxr: usize) {
         let t = *r.pick(&["\x1b]0;title", "\x1bP1;2|abc", "\x1b_apc", "\x1b^pm", "\x1bXsos", "\x1b[12;3", "\x1b[?1", "\x1b[1 ", "\x1b[:", "\x1b(", "\x1b", "\u{90}:", "\u{9b}",
             "\x1b[0;0;0;0;0;0;0;0;0;0;0;0;0;0;0;0;0;0;0;0;0;0;0;0;0;0;0;0;0;0;0;1",
             "\x1b[1;2;3;4;5;6;7;8;9;10;11;12;13;14;15;16;17;18;19;20;21;22;23;24;25;26;27;28;29;30;31;32;33",
-            "\x1bP1;1;1;1;1;1;1;1;1;1;1;1;1;1;1;1;1;1;1;1;1;1;1;1;1;1;1;1;1;1;1;7", "\x1b[38:2:1:2:3:4"]);
+            "\x1bP1;1;1;1;1;1;1;1;1;1;1;1;1;1;1;1;1;1;1;1;1;1;1;1;1;1;1;1;1;1;1;7", "\x1b[38:2:1:2:3:4",
+            // more sub-parameters than the parser stores, complete and incomplete
+            "\x1b[1:2:3:4:5:6:7:8", "\x1b[38:2:1:2:3:4:5:6:7m", "\x1b[9:9:9:9:9:9:9:9;9:9:9:9:9:9:9:9:9m", "\x1b[4::::::7", "\x1b[1:1:1:1:1:1:1 q", "\u{9b}5:4:3:2:1:9:8;7:7:7:7:7:7:7:7"]);
         s.feed_str(a, t, true);
     }
     let t = if r.chance(1, 4) { "\x1b\x01c" } else { "\x1bc" };
@@ -1170,7 +1243,8 @@ fn ep_c19(s: &mut S, r: &mut Rng, maxc: usize, maxr: usize) {
         }
         let t = match r.n(5) {
             0 | 1 => r.pick(PROBES).to_string(),
-            2 => format!("\x1b[{}mX", ";".repeat(r.range(29, 33))), // reads every parameter slot
+            2 if r.chance(1, 2) => format!("\x1b[{}mX", ";".repeat(r.range(29, 33))), // reads every parameter slot
+            2 => r.pick(&["\x1b[38:5:3mX", "\x1b[48:2:1:2:3mX", "\x1b[0;38:2::1:2:3mX", "\x1b[;48:5:9mX", "\x1b[38:2:::mX", "\x1b[4:mX"]).to_string(), // reads the sub-parameter slots
             _ => gen::token(r, &wt, c, rr),
         };
         s.feed_str(a, &t, true);
@@ -1279,6 +1353,86 @@ fn ep_c20x(s: &mut S, r: &mut Rng, _maxc: usize, _maxr: usize, shard: u64, shard
     }
 }
 
+/// Bounded-exhaustive parameter SHAPES (C03 "parameters as written", C08 SGR forms, C19/C20 parser
+/// cleanliness): every sequence of up to three items over an item alphabet that mixes ';' and ':'
+/// forms, empty items, colour introducers with and without their arguments and items with more
+/// sub-parameters than the parser stores, before the SGR final; colour introducers followed by up to
+/// four further items; one and two items before every other implemented final.  Each token is one
+/// feed_str call, once on a cleared pen and once on a pen with everything set.
+/// The token list of C03S: (parameter text, final, private marker).
+fn shape_list() -> Vec<(String, &'static str, &'static str)> {
+    let items = ["", "0", "1", "2", "5", "7", "38", "48", "2:9", "5:1", "38:5:3", "48:2:1:2:3", "38:2::1:2:3", "1:2:3:4:5:6:7", "::::::", "4:3:::::5:"];
+    let small = ["", "0", "1", "2", "5", "7", "2:9", "5:1"];
+    let mut toks: Vec<(String, &'static str, &'static str)> = Vec::new();
+    for a in items {
+        toks.push((a.to_string(), "m", ""));
+        for b in items {
+            toks.push((format!("{};{}", a, b), "m", ""));
+            for c in items {
+                toks.push((format!("{};{};{}", a, b, c), "m", ""));
+            }
+        }
+    }
+    for intro in ["38", "48"] {
+        for a in small {
+            for b in small {
+                for c in small {
+                    toks.push((format!("{};{};{};{}", intro, a, b, c), "m", ""));
+                    toks.push((format!("1;{};{};{};{}", intro, a, b, c), "m", ""));
+                    for d in small {
+                        toks.push((format!("{};{};{};{};{}", intro, a, b, c, d), "m", ""));
+                    }
+                }
+            }
+        }
+    }
+    let finals = ["H", "r", "A", "B", "C", "D", "d", "G", "J", "K", "h", "l", "?h", "?l", "X", "@", "P", "L", "M", "S", "T", "b", "g", "W", "I", "Z", "e", "`", "a", "E", "F", "f"];
+    for fin in finals {
+        let (pre, f) = if let Some(x) = fin.strip_prefix('?') { ("?", x) } else { ("", fin) };
+        for a in items {
+            toks.push((a.to_string(), f, pre));
+            for b in items.iter().take(13) {
+                toks.push((format!("{};{}", a, b), f, pre));
+            }
+        }
+    }
+    toks
+}
+
+pub fn shape_tokens() -> Vec<String> {
+    shape_list().into_iter().map(|(p, f, pre)| format!("\x1b[{}{}{}", pre, p, f)).collect()
+}
+
+fn ep_c03s(s: &mut S, shard: u64, shards: u64) {
+    let mut k = 0u64;
+    let mut slot = 0usize;
+    let mut in_ep = 0usize;
+    let start = |s: &mut S| -> usize {
+        s.episode("C03S");
+        let slot = s.new_vt(6, 4, 2);
+        s.feed_str(slot, "ab\r\ncdef\r\ng\x1b[2;3H", true);
+        slot
+    };
+    for (t, f, pre) in shape_list() {
+        k += 1;
+        if k % shards != shard {
+            continue;
+        }
+        if in_ep == 0 || !s.alive(slot) {
+            slot = start(s);
+        }
+        in_ep = (in_ep + 1) % 40;
+        if f == "m" {
+            s.feed_str(slot, "\x1b[m", true);
+            s.feed_str(slot, &format!("\x1b[{}m", t), true);
+            s.feed_str(slot, "\x1b[0;1;3;4;5;7;9;31;42m", true);
+            s.feed_str(slot, &format!("\u{9b}{}m", t), true);
+        } else {
+            s.feed_str(slot, &format!("\x1b[{}{}{}", pre, t, f), true);
+        }
+    }
+}
+
 // ---------------------------------------------------------------------------------- C03 (Vt part)
 
 fn ep_c03(s: &mut S, r: &mut Rng, _maxc: usize, _maxr: usize) {
@@ -1312,6 +1466,12 @@ pub fn run(args: &Args) -> i32 {
         ep_c08x(&mut s, &mut r, args.num("shard", 0), args.num("shards", 1));
         s.out.flush().unwrap();
         println!("{{\"driver\":\"C08X\",\"seed\":{},\"episodes\":{},\"events\":{},\"panics\":{},\"chars\":{},\"distinct_nontrivial\":{}}}", seed, s.episodes, s.events, s.panics, s.chars_fed, s.distinct.len());
+        return 0;
+    }
+    if drv == "C03S" {
+        ep_c03s(&mut s, args.num("shard", 0), args.num("shards", 1));
+        s.out.flush().unwrap();
+        println!("{{\"driver\":\"C03S\",\"seed\":{},\"episodes\":{},\"events\":{},\"panics\":{},\"chars\":{},\"distinct_nontrivial\":{}}}", seed, s.episodes, s.events, s.panics, s.chars_fed, s.distinct.len());
         return 0;
     }
     if drv == "C20X" {
